@@ -390,7 +390,7 @@ fn check_decode(bytes: &[u8], rep: &mut Report) {
 }
 
 pub fn run(ctx: &Ctx) -> Outcome {
-    let fills = ctx.size(20_000, 2_000_000);
+    let fills = ctx.size(20_000, 40_000_000);
     let mut report = run_sharded(ctx, 1 + 256 + 41, |shard, rep| {
         if shard == 0 {
             for t in TYPES.iter() {
